@@ -301,6 +301,86 @@ func (v *Verifier) methodSpecOf(t types.Type, method string) *FuncSpec {
 	return nil
 }
 
+// funcTypeSpec finds the contract attached to a named function type ("functype T").
+func (v *Verifier) funcTypeSpec(t types.Type) *FuncSpec {
+	n, ok := types.Unalias(t).(*types.Named)
+	if !ok || n.Obj().Pkg() == nil {
+		return nil
+	}
+	cs := v.contracts[n.Obj().Pkg().Path()]
+	if cs == nil {
+		return nil
+	}
+	return cs.Funcs["functype:"+n.Obj().Name()]
+}
+
+// CheckFrame: syntactic frame obligation over the SSA of a package: only the listed functions store to the field.
+func (v *Verifier) CheckFrame(cs *ContractSet, fd *FrameDecl) (ok bool, offenders []string) {
+	p := v.pkgByPath[cs.PkgPath]
+	if p == nil {
+		return false, []string{"package not loaded"}
+	}
+	sp := v.prog.Package(p.Types)
+	allowed := map[string]bool{}
+	for _, w := range fd.Writers {
+		allowed[w] = true
+	}
+	dot := strings.LastIndex(fd.Field, ".")
+	typ, field := fd.Field[:dot], fd.Field[dot+1:]
+	found := false
+	var visit func(fn *ssa.Function)
+	seen := map[*ssa.Function]bool{}
+	visit = func(fn *ssa.Function) {
+		if fn == nil || seen[fn] {
+			return
+		}
+		seen[fn] = true
+		for _, b := range fn.Blocks {
+			for _, in := range b.Instrs {
+				st, isStore := in.(*ssa.Store)
+				if !isStore {
+					continue
+				}
+				fa, isFA := st.Addr.(*ssa.FieldAddr)
+				if !isFA {
+					continue
+				}
+				s := structOf(fa.X.Type())
+				if s == nil || s.Field(fa.Field).Name() != field {
+					continue
+				}
+				pt := derefType(fa.X.Type())
+				if pt == nil || typeName(pt) != typ {
+					continue
+				}
+				found = true
+				if !allowed[targetName(fn)] {
+					offenders = append(offenders, targetName(fn)+" ("+v.pos(st.Pos())+")")
+				}
+			}
+		}
+		for _, a := range fn.AnonFuncs {
+			visit(a)
+		}
+	}
+	for _, m := range sp.Members {
+		switch mm := m.(type) {
+		case *ssa.Function:
+			visit(mm)
+		case *ssa.Type:
+			if named, ok := mm.Type().(*types.Named); ok {
+				for i := 0; i < named.NumMethods(); i++ {
+					visit(v.prog.FuncValue(named.Method(i)))
+				}
+			}
+		}
+	}
+	if !found {
+		return false, []string{"no store to " + fd.Field + " found at all (field renamed or removed?)"}
+	}
+	return len(offenders) == 0, offenders
+}
+
 func (v *Verifier) isPureFuncType(t types.Type) bool {
 	n, ok := types.Unalias(t).(*types.Named)
 	if !ok || n.Obj().Pkg() == nil {
